@@ -19,6 +19,8 @@
 (*   esel   path -> name|"-"      *_SUBCOMMAND variables                   *)
 (*   eopt   SUBSET paths          *_X variables                            *)
 (*   strict BOOLEAN               the config is the call's own input (parse_object/parse_string) rather than --cfg *)
+(*   dcf    BOOLEAN               the config is a DEFAULT CONFIG FILE of the root parser: in the documented order  *)
+(*                                it comes before the environment, which therefore overrides it                    *)
 (*                                                                         *)
 (* Ref  Select: the documented choice and the surviving key set.           *)
 (* Alg  the decision procedure of _ActionSubCommands.get_subcommands       *)
@@ -34,8 +36,9 @@ Level(x, chosen, sections) == [x |-> x, chosen |-> chosen, sections |-> sections
 
 \* value of option x of the parser at path p: the last source in documented order that provides it
 XVal(in, p) == IF IsPrefix(p, in.argv) /\ Len(p) \in in.aopt THEN 3
-               ELSE IF p \in in.csec THEN 2
+               ELSE IF ~in.dcf /\ p \in in.csec THEN 2
                ELSE IF in.env /\ p \in in.eopt THEN 1
+               ELSE IF in.dcf /\ p \in in.csec THEN 2
                ELSE 0
 
 (***************************************************************************)
@@ -45,8 +48,9 @@ XVal(in, p) == IF IsPrefix(p, in.argv) /\ Len(p) \in in.aopt THEN 3
 \* config, else the one named in the environment, else the first (declaration order) for which settings were given
 RefChosen(T, in, p) ==
   IF Len(in.argv) > Len(p) /\ IsPrefix(p, in.argv) THEN in.argv[Len(p) + 1]
-  ELSE IF in.csel[p] # None THEN in.csel[p]
+  ELSE IF ~in.dcf /\ in.csel[p] # None THEN in.csel[p]
   ELSE IF in.env /\ in.esel[p] # None THEN in.esel[p]
+  ELSE IF in.dcf /\ in.csel[p] # None THEN in.csel[p]
   ELSE LET given == {j \in 1..Len(T[p].ch) : (p \o <<T[p].ch[j]>>) \in in.csec}
        IN IF given # {} THEN T[p].ch[Min(given)] ELSE None
 
@@ -71,8 +75,9 @@ Select(T, in) == RefWalk(T, in, << >>)
 \* A section exists if the config gave one, or the command line / environment path created one for the named choice.
 AlgDest(in, p) ==
   IF Len(in.argv) > Len(p) /\ IsPrefix(p, in.argv) THEN in.argv[Len(p) + 1]
-  ELSE IF in.csel[p] # None THEN in.csel[p]
+  ELSE IF ~in.dcf /\ in.csel[p] # None THEN in.csel[p]
   ELSE IF in.env /\ in.esel[p] # None THEN in.esel[p]
+  ELSE IF in.dcf /\ in.csel[p] # None THEN in.csel[p]
   ELSE None
 AlgSectionKeys(T, in, p) ==   \* indices of choices whose value is a Namespace, in declaration order
   {j \in 1..Len(T[p].ch) :
@@ -104,6 +109,13 @@ CfgKeyNamesOther(in) == \E p \in DOMAIN in.csel :
                           /\ in.csel[p] # None /\ Len(in.argv) > Len(p) /\ IsPrefix(p, in.argv)
                           /\ in.argv[Len(p) + 1] # in.csel[p] /\ (p \o <<in.argv[Len(p) + 1]>>) \in in.csec
                           /\ Cardinality(SibSecs(in, p)) > 1
+
+\* A second recorded finding (C17 dcf:subcommand-settings): a DEFAULT CONFIG FILE that carries sub-command content (an
+\* explicit "subcommand" key or sections).  get_defaults parses the file on its own with the sub-command machinery in
+\* its strict form (_core.py:1029-1036: _parse_common with fail_no_subcommand = TRUE), so partial settings fail
+\* ("Problem in default config file ... expected subcommand"), an inner explicit key can escape as AttributeError, and
+\* the environment does not override the file's choice.  The input class is the finding; it is not modelled further.
+DcfSubSettings(in) == in.dcf /\ ((\E p \in DOMAIN in.csel : in.csel[p] # None) \/ (\E q \in in.csec : q # << >>))
 
 RECURSIVE AlgWalk(_, _, _)
 AlgWalk(T, in, p) ==
